@@ -268,8 +268,18 @@ impl Harness for C16 {
             }
         }
         // hashed-N constructor
-        let h1 = DnaString::from_acgt_bytes_hashn(&c.bytes, &c.name);
-        let h2 = DnaString::from_acgt_bytes_hashn(&c.bytes, &c.name);
+        let h1 = with_path(c.force_scalar, || DnaString::from_acgt_bytes_hashn(&c.bytes, &c.name));
+        let h2 = with_path(c.force_scalar, || DnaString::from_acgt_bytes_hashn(&c.bytes, &c.name));
+        // a function of (read name, position) - hence not of the CPU dispatch either
+        let h_other = with_path(!c.force_scalar, || DnaString::from_acgt_bytes_hashn(&c.bytes, &c.name));
+        if h1 != h_other {
+            let p = (0..n).find(|i| h1.get(*i) != h_other.get(*i));
+            return Err(viol(
+                "hashn-path-dependent",
+                "from_acgt_bytes_hashn",
+                format!("result differs with the vector path available / masked off (first difference at position {:?}, lane {:?})", p, p.map(|x| x % 32)),
+            ));
+        }
         if h1 != h2 {
             return Err(viol("hashn-nondeterministic", "from_acgt_bytes_hashn", "two calls with the same (bytes, name) differ".into()));
         }
